@@ -145,6 +145,38 @@ fn check_input(h: &History, nodes: &[usize], deviations: usize, t: &mut Tally) -
             Err(e) => out.push(("panic/resolve-identical".into(), e)),
         }
     }
+    // a fork listed twice (two servers reporting the same state): still a permutation-invariant collection —
+    // every arrangement of [S0, S0, S1] and of [S1, S1, S0] gives one result
+    if k == 2 && conflicted {
+        for twice in 0..2usize {
+            let idx = [twice, twice, 1 - twice];
+            let dup = Input {
+                h,
+                sets: idx.iter().map(|&i| inp.sets[i].clone()).collect(),
+                chains: idx.iter().map(|&i| inp.chains[i].clone()).collect(),
+            };
+            let mut first: Option<(Vec<usize>, _)> = None;
+            for p in permutations(3) {
+                match run(&dup, &p, &p, &[], t) {
+                    Ok((o, _)) => {
+                        t.outcome("duplicated-fork", if o == base { "same as without the duplicate" } else { "differs from the two-set result" });
+                        match &first {
+                            None => first = Some((p.clone(), o)),
+                            Some((p0, o0)) if *o0 != o => {
+                                out.push((
+                                    "argument-order/duplicated-fork".into(),
+                                    format!("sets {idx:?} arranged {p0:?}: {o0:?}; arranged {p:?}: {o:?}"),
+                                ));
+                                break;
+                            }
+                            _ => {}
+                        }
+                    }
+                    Err(e) => out.push(("panic/resolve-duplicated".into(), e)),
+                }
+            }
+        }
+    }
     // (D) iteration orders
     let mut stats = (0u64, 0u64);
     explore(&inp, &ident, &base, vec![], 0, deviations, t, &mut out, &mut stats);
@@ -238,6 +270,8 @@ fn main() {
             (1, 3, 2, all_templates.clone(), ab.clone()),
             (3, 2, 1, power_templates.clone(), ab.clone()),
             (2, 2, 1, all17.clone(), vec!['C']),
+            // a moderator's join rule that a knock cites (so it sits in the auth chains), later join rules by creator / moderator
+            (3, 2, 0, vec![17, 18, 7, 19], vec!['A']),
         ],
         // cheapest first, so that the wall cap (if it is ever hit) cuts only the last pass
         Tier::Thorough => vec![
@@ -246,13 +280,14 @@ fn main() {
             (2, 4, 2, all_templates.clone(), ab.clone()),
             (2, 3, 2, all17.clone(), vec!['C']),
             (3, 2, 1, vec![0, 1, 3, 4, 6, 7, 9, 10], ab.clone()),
+            (4, 3, 1, vec![17, 18, 7, 19, 9], vec!['A']),
         ],
     };
     report.set_rule(&format!(
         "passes (history depth, max state sets, deviation bound, templates, base rooms) = {passes:?}. inputs: every room history reachable by appending <= depth events \
          (14 templates x prev subsets x timestamp equal/later) to the pass's base rooms (A with power levels, B without, C = A plus an abandoned merged power-levels fork, all room version 11; D / E = A / B with the create event sent by the moderator while content.creator is the creator, room version 10), and every subset of 2..=max nodes containing \
          the newest node. For each input: repeat call; every permutation of the state-set list with the auth-chain list permuted jointly, left in \
-         place and reversed; 1-3 identical copies of one set must come back unchanged; deviation-bounded DFS over the iteration order of every hash \
+         place and reversed; 1-3 identical copies of one set must come back unchanged; for two conflicting sets also every arrangement of [S0,S0,S1] and [S1,S1,S0] (one result per collection); deviation-bounded DFS over the iteration order of every hash \
          container resolve iterates (hook verif_order): all-default run, then every combination of <= bound deviations over the choice points \
          (all n! orders for n<=4, else reverse + adjacent swaps + rotations). Oracle: result == all-default result. state = one history; \
          transition = one real resolve call under a script; non-trivial = input with conflicting state sets"
